@@ -252,13 +252,27 @@ func (rs *bodyStream) skipRest() error {
 		if rs.chunkLeft > 0 {
 			// the reader stopped inside a chunk: what follows is the rest of its payload,
 			// not a chunk-size line
-			if _, err := rs.reader.Peek(rs.chunkLeft); err != nil {
-				return err
+			for rs.chunkLeft > 0 {
+				// skip what has arrived, piece by piece: the declared chunk size comes from
+				// the peer and must not be used as a buffer size
+				skip := rs.reader.Len()
+				if skip == 0 {
+					if _, err := rs.reader.Peek(1); err != nil {
+						return err
+					}
+					skip = rs.reader.Len()
+				}
+				if skip > rs.chunkLeft {
+					skip = rs.chunkLeft
+				}
+				if err := rs.reader.Skip(skip); err != nil {
+					return err
+				}
+				if err := rs.reader.Release(); err != nil {
+					return err
+				}
+				rs.chunkLeft -= skip
 			}
-			if err := rs.reader.Skip(rs.chunkLeft); err != nil {
-				return err
-			}
-			rs.chunkLeft = 0
 			if err := utils.SkipCRLF(rs.reader); err != nil {
 				return err
 			}
